@@ -703,7 +703,7 @@ class _ReadMaker:
 
 def make_dataset(rng, outdir, n_samples=3, n_loci=3, ploidies=(2, 4), max_snvs=5, multiallelic=True,
                  depth=(5, 30), read_len=(30, 80), error_rate=0.01, features=frozenset(), n_contigs=1,
-                 contig_len=600, sample_names=None, softmask=0.0) -> Dataset:
+                 contig_len=600, sample_names=None, softmask=0.0, iupac=0.0) -> Dataset:
     """Generate and write a complete input set for the MCHap programs (see the module docstring).
 
     * loci: `n_loci` non-overlapping windows (12..60 bp) spread over `n_contigs` contigs, 0..`max_snvs` SNVs each;
@@ -896,6 +896,18 @@ def make_dataset(rng, outdir, n_samples=3, n_loci=3, ploidies=(2, 4), max_snvs=5
                 b = min(len(seq), a + rng.randint(1, max(1, len(seq) // 4)))
                 t[a:b] = [x.lower() for x in t[a:b]]
                 covered += b - a
+            fasta_contigs[c] = "".join(t)
+    if iupac > 0:
+        # IUPAC ambiguity codes in the reference FASTA only, at positions that are not SNVs (the reads, their MD tags and the
+        # SNV file keep the concrete base): a code that stands for the concrete base replaces about `iupac` of the bases
+        codes = {"A": "RWM", "C": "YSM", "G": "RSK", "T": "YWK"}
+        snv_pos = {(l.contig, p_) for l in loci for p_ in l.snv_positions}
+        for c, seq in list(fasta_contigs.items()):
+            t = list(seq)
+            for i_ in range(len(t)):
+                if (c, i_) not in snv_pos and t[i_].upper() in codes and rng.random() < iupac:
+                    code = rng.choice(codes[t[i_].upper()])
+                    t[i_] = code if t[i_].isupper() else code.lower()
             fasta_contigs[c] = "".join(t)
     fasta = write_fasta(os.path.join(outdir, "reference.fasta"), fasta_contigs)
     for p in bam_order:
